@@ -130,11 +130,11 @@ func fieldLoadOf(v ssa.Value, pkgPath, typ, field string) bool {
 			return false
 		}
 		n, f := core.FieldAddrInfo(fa)
-		return n != nil && f == field && n.Obj().Name() == typ && n.Obj().Pkg() != nil && n.Obj().Pkg().Path() == pkgPath
+		return n != nil && f == field && core.TypeCanon(n) == typ && n.Obj().Pkg() != nil && n.Obj().Pkg().Path() == pkgPath
 	case *ssa.Field:
 		n := core.NamedOf(x.X.Type())
 		f := core.FieldName(x.X.Type(), x.Field)
-		return n != nil && f == field && n.Obj().Name() == typ && n.Obj().Pkg() != nil && n.Obj().Pkg().Path() == pkgPath
+		return n != nil && f == field && core.TypeCanon(n) == typ && n.Obj().Pkg() != nil && n.Obj().Pkg().Path() == pkgPath
 	}
 	return false
 }
